@@ -115,11 +115,11 @@ def run(ctx):
         os.chdir(cwd)
     sys.path.remove(pkgdir)
 
-    def request(app, iface, path):
+    def request(app, iface, path, root_path=""):
         OPENED.clear()
         _hook[0] = True
         try:
-            req = servers.Req(path=path, headers=[("Host", "testserver")])
+            req = servers.Req(path=path, headers=[("Host", "testserver")], root_path=root_path)
             r = servers.wsgi_call(app, req) if iface == "wsgi" else servers.asgi_call(app, req)
         finally:
             _hook[0] = False
@@ -147,9 +147,13 @@ def run(ctx):
                 # (the relative / package-relative directory has another name than "root": only paths that stay below it)
                 if key[0] == appname and n % 5 == 0 and ".." not in st["segs"]:
                     variants.append((a, key[1], key[2]))
+            # the application mounted below a prefix (SCRIPT_NAME / root_path): the same files, and "the same URL" includes the prefix
+            if n % 3 == 0 or st["hops"] == 1:
+                variants += [(apps[(appname, "wsgi")], "wsgi", "abs, mounted at /mnt"), (apps[(appname, "asgi")], "asgi", "abs, mounted at /mnt")]
             for app, iface, dirform in variants:
+                mount = "/mnt" if "mounted" in dirform else ""
                 for path, want in paths:
-                    o = request(app, iface, path)
+                    o = request(app, iface, path, mount)
                     ctx.count()
                     ctx.traces_validated += 1
                     case = {"app": appname, "iface": iface, "directory": dirform, "path": path}
@@ -166,7 +170,7 @@ def run(ctx):
                         loc = o["location"]
                         # the Location is a URL reference: its path, percent-decoded, must be the requested path plus "/"
                         loc_path = urllib.parse.unquote(urllib.parse.urlsplit(loc).path) if loc is not None else None
-                        if o["status"] != 307 or loc_path != path + "/":
+                        if o["status"] != 307 or loc_path != mount + path + "/":
                             bad = "directory URL without trailing slash: expected a redirect to the same URL plus '/'"
                     elif want["k"] == "file":
                         if o["status"] != 200 or o["body"] != content_of(want["p"]):
